@@ -161,15 +161,37 @@ func (s ClientRecoveryStore) GetStore(prefix []byte) (storetypes.KVStore, bool) 
 	return nil, false
 }
 
-// closedIterator returns an iterator that is always closed, used when Iterator() or ReverseIterator() is called
+// closedIterator returns an iterator over nothing, used when Iterator() or ReverseIterator() is called
 // with an invalid prefix or start/end key.
-func (s ClientRecoveryStore) closedIterator() storetypes.Iterator {
-	// Create a dummy iterator that is always closed right away.
-	it := s.subjectStore.Iterator([]byte{0}, []byte{1})
-	it.Close()
-
-	return it
+func (ClientRecoveryStore) closedIterator() storetypes.Iterator {
+	// NOTE: closing an iterator of the underlying store is not enough, store iterators
+	// keep reporting Valid() and serving Key()/Value() after Close().
+	return emptyIterator{}
 }
+
+// emptyIterator implements storetypes.Iterator over an empty domain: it is never valid.
+type emptyIterator struct{}
+
+// Domain implements storetypes.Iterator.
+func (emptyIterator) Domain() ([]byte, []byte) { return nil, nil }
+
+// Valid implements storetypes.Iterator. It always returns false.
+func (emptyIterator) Valid() bool { return false }
+
+// Next implements storetypes.Iterator. It panics as the iterator is never valid.
+func (emptyIterator) Next() { panic(errors.New("iterator is invalid")) }
+
+// Key implements storetypes.Iterator. It panics as the iterator is never valid.
+func (emptyIterator) Key() []byte { panic(errors.New("iterator is invalid")) }
+
+// Value implements storetypes.Iterator. It panics as the iterator is never valid.
+func (emptyIterator) Value() []byte { panic(errors.New("iterator is invalid")) }
+
+// Error implements storetypes.Iterator.
+func (emptyIterator) Error() error { return nil }
+
+// Close implements storetypes.Iterator.
+func (emptyIterator) Close() error { return nil }
 
 // SplitPrefix splits the key into the prefix and the key itself, if the key is prefixed with either "subject/" or "substitute/".
 // If the key is not prefixed with either "subject/" or "substitute/", the prefix is nil.
